@@ -229,6 +229,33 @@ def check(case):
     return None
 
 
+class NoOrder:
+    """Value of a (key, value) pair that supports no comparison."""
+
+    def __init__(self, i):
+        self.i = i
+
+    def __str__(self):
+        return 'v%d' % self.i
+
+
+class PairStr(str):
+    """String value that orders against the input order."""
+
+    def __new__(cls, text, rank):
+        o = str.__new__(cls, text)
+        o.rank = rank
+        return o
+
+    def __lt__(self, other):
+        return self.rank < other.rank
+
+    def __gt__(self, other):
+        return self.rank > other.rank
+
+    __hash__ = str.__hash__
+
+
 def check_item(case):
     """Empty sort / sort=sequence-item: order by the element, or by the key
     of (key, value) pairs."""
@@ -236,7 +263,15 @@ def check_item(case):
     kind, vals, how, rev = case['kind'], case['vals'], case['how'], \
         case['rev']
     if kind == 'pair':
-        els = [(v, 'v%d' % i) for i, v in enumerate(vals)]
+        # the values of the pairs take no part in the ordering: they come
+        # in descending order, or cannot be compared at all
+        if case.get('pairval') == 'object':
+            els = [(v, NoOrder(i)) for i, v in enumerate(vals)]
+        elif case.get('pairval') == 'desc':
+            els = [(v, PairStr('v%d' % i, 99 - i))
+                   for i, v in enumerate(vals)]
+        else:
+            els = [(v, 'v%d' % i) for i, v in enumerate(vals)]
         body = '<dtml-var sequence-key>:<dtml-var sequence-item>,'
     else:
         els = list(vals)
@@ -313,6 +348,7 @@ def strategy():
         kind=st.sampled_from(['int', 'str', 'pair']),
         how=st.sampled_from(['empty', 'sequence-item']),
         rev=st.booleans(),
+        pairval=st.sampled_from(['str', 'desc', 'object']),
         vals=st.just(None))).flatmap(lambda c: st.lists(
             st.integers(-3, 3) if c['kind'] != 'str'
             else st.sampled_from(['a', 'b', 'B', 'aa', '']),
